@@ -53,4 +53,13 @@ theorem plotSelect_is_source (n : Int) :
 theorem plot_loops_are_source : Generated.PlotModes.gammaSkip = 3 ∧ Generated.PlotModes.loopsCanonical = true ∧
     Generated.PlotModes.defaults = [0, 0] := by decide
 
+/-- the command `cij modes` hands its `-n` option to the parameter `n` and its `-q` (`--iq`) option to `iq` of `plot_modes`, positionally in the
+order the method declares them (after the axes object), as written in cij/cli/modes.py now -/
+theorem cli_modes_wiring_is_source :
+    Generated.PlotModes.plotParams = ["ax", "n", "iq"] ∧
+    Generated.PlotModes.cliCallArgs.drop 1 = Generated.PlotModes.plotParams.drop 1 ∧
+    (Generated.PlotModes.cliOptions.map (·.1)).filter (fun x => x = "n" ∨ x = "iq") = ["iq", "n"] ∧
+    Generated.PlotModes.cliOptions.lookup "n" = some ("-n", "click.IntRange(0, 3)", "0") ∧
+    Generated.PlotModes.cliOptions.lookup "iq" = some ("-q,--iq", "click.INT", "0") := by decide
+
 end Cij.PlotModesSource
